@@ -275,7 +275,8 @@ Theorem stage_delete_is_fold : forall (M : Type) (O : ops M) l m,
   stage O KDeleteSignal (render_list l) m = Some (fold_tot (o_del_signal O) l m) /\
   stage O KDeleteFrame (render_list l) m = Some (fold_tot (o_del_frame O) l m) /\
   stage O KDeleteEcu (render_list l) m = Some (fold_tot (o_del_ecu O) l m) /\
-  stage O KDeleteSignalAttributes (render_list l) m = Some (o_del_signal_attributes O l m).
+  stage O KDeleteSignalAttributes (render_list l) m = Some (o_del_signal_attributes O l m) /\
+  stage O KDeleteFrameAttributes (render_list l) m = Some (o_del_frame_attributes O l m).
 Proof.
   intros M O l m Hne Hp. cbn [stage]. rewrite comma_list_parse by assumption. repeat split.
 Qed.
